@@ -162,8 +162,16 @@ pub fn execute(case: &TCase) -> TOutcome {
   let log = w.log.lock().unwrap().clone();
   let calls = w.calls.lock().unwrap().clone();
   let deliveries = w.deliveries.lock().unwrap().clone();
-  // break reference cycles between subjects and subscriptions held by the world
-  w.subs.lock().unwrap().clear();
+  // break reference cycles between subjects, composite subscriptions and the observers held by the world
+  let rest: Vec<TSub> = w.subs.lock().unwrap().drain(..).flatten().collect();
+  crate::hooks::set_mode(crate::hooks::ThreadMode::Unmanaged);
+  for s in rest {
+    let _ = std::panic::catch_unwind(std::panic::AssertUnwindSafe(|| s.unsubscribe()));
+  }
+  for h in &w.hot {
+    let h = h.clone();
+    let _ = std::panic::catch_unwind(std::panic::AssertUnwindSafe(|| h.unsubscribe()));
+  }
   TOutcome { stats, log, calls, deliveries, pre_probes }
 }
 
